@@ -47,6 +47,15 @@
 #include "simplex_mpq.h"
 
 /* ========================================================================= */
+#ifdef QSOPT_EX_VERIF
+/* verification hook (add-only): counts which arithmetic path QSexact_solver
+ * took, so that a harness can report how often the exact fallbacks ran */
+unsigned QSexact_verif_trace[8];
+#define QSX_VERIF_TRACE(i) (QSexact_verif_trace[(i)]++)
+#else
+#define QSX_VERIF_TRACE(i) ((void)0)
+#endif
+/* ========================================================================= */
 int QSexact_print_sol (mpq_QSdata * p,
 											 EGioFile_t * out_f)
 {
@@ -947,6 +956,7 @@ static void infeasible_output (mpq_QSdata * p_mpq,
 															 mpq_t * const y,
 															 mpq_t * y_mpq)
 {
+	QSX_VERIF_TRACE(5);
 	if (p_mpq->simplex_display)
 	{
 		QSlog("Problem Is Infeasible");
@@ -977,6 +987,7 @@ static void optimal_output (mpq_QSdata * p_mpq,
 														mpq_t * x_mpq,
 														mpq_t * y_mpq)
 {
+	QSX_VERIF_TRACE(4);
 	if (p_mpq->simplex_display)
 	{
 		QSlog("Problem Solved Exactly");
@@ -1011,6 +1022,7 @@ static int QSexact_basis_status (mpq_QSdata * p_mpq,
 	EGtimer_t local_timer;
 	mpq_EGlpNumInitVar (fi.totinfeas);
 	EGtimerReset (&local_timer);
+	QSX_VERIF_TRACE(2);
 	EGtimerStart (&local_timer);
 	EGcallD(mpq_QSload_basis (p_mpq, basis));
 	if (p_mpq->cache) 
@@ -1470,6 +1482,7 @@ int QSexact_solver (mpq_QSdata * p_mpq,
 	}
 	p_dbl = QScopy_prob_mpq_dbl (p_mpq, "dbl_problem");
 	if(__QS_SB_VERB <= DEBUG) p_dbl->simplex_display = 1;
+	QSX_VERIF_TRACE(0);
 	if (ebasis && ebasis->nstruct)
 		dbl_QSload_basis (p_dbl, ebasis);
 	if (dbl_ILLeditor_solve (p_dbl, simplexalgo))
@@ -1606,6 +1619,7 @@ int QSexact_solver (mpq_QSdata * p_mpq,
 	for (; it--; precision = (unsigned) (precision * 1.5))
 	{
 		QSexact_set_precision (precision);
+		QSX_VERIF_TRACE(3);
 		if (p_mpq->simplex_display || DEBUG >= __QS_SB_VERB)
 		{
 			QSlog("Trying mpf with %u bits", precision);
@@ -1624,6 +1638,7 @@ int QSexact_solver (mpq_QSdata * p_mpq,
 			{
 				QSlog("Re-using previous basis");
 			}
+			QSX_VERIF_TRACE(6);
 			if (basis)
 			{
 				EGcallD(mpf_QSload_basis (p_mpf, basis));
